@@ -816,10 +816,13 @@ func (x *prioExec) loneBurstProbe(op POp) {
 				return
 			}
 			before := x.res.Received
-			if !x.await(prioL, func() bool { return x.res.Received > before }) && !x.termSeen && !x.mon.faulted.Load() {
-				x.fail("C06", "lone-burst-stalled", "priority %d is alone in having data (an undelivered item is waiting) and alone in flight with %d of %d handlers, its share is %d and the %d vacant handlers can give every other priority one, but nothing more was delivered within %s (virtual) although no release is needed", op.P, k, H, x.shares[op.P], H-k, prioL)
-				return
+			if x.await(prioL, func() bool { return x.res.Received > before }) {
+				continue
 			}
+			if !x.termSeen && !x.mon.faulted.Load() {
+				x.fail("C06", "lone-burst-stalled", "priority %d is alone in having data (an undelivered item is waiting) and alone in flight with %d of %d handlers, its share is %d and the %d vacant handlers can give every other priority one, but nothing more was delivered within %s (virtual) although no release is needed", op.P, k, H, x.shares[op.P], H-k, prioL)
+			}
+			return
 		}
 	}
 }
